@@ -99,6 +99,10 @@ def scenarios(thorough):
     rep_plan = [["provides", "node"], ["provides", "npm"], ["provides", "node"], ["provides", "yarn"], ["provides", "pnpm"], ["requires", "k1"], ["requires", "k2"], ["requires", "k1"], ["requires", "k3"],
                 ["or"], ["provides", "p1"], ["provides", "p2"], ["provides", "p3"], ["provides", "p2"], ["requires_meta", "k2", {"k2": 1}], ["requires_meta", "k2", {"k1": 2}], ["requires", "k3"]]
     out.append({"phase": "detect", "label": "plan-repeated-names", "script": {"detect": {"kind": "pass_plan", "plan": rep_plan}}})
+    # a plan whose alternatives repeat (the primary plan again, one alternative twice) next to three distinct ones
+    alt = lambda n: [["provides", n], ["requires", n]]
+    red_plan = alt("k1") + [["or"]] + alt("k2") + [["or"]] + alt("k1") + [["or"]] + alt("k3") + [["or"]] + alt("k2") + [["or"]] + alt("p1")
+    out.append({"phase": "detect", "label": "plan-redundant-alternatives", "script": {"detect": {"kind": "pass_plan", "plan": red_plan}}})
     # metadata set twice on one Require, both values holding 3-element lists under the same keys
     out.append({"phase": "detect", "label": "plan-require-metadata-set-twice", "script": {"detect": {"kind": "pass_plan", "plan": [
         ["requires_meta_n", "k1", {"list": ["k1", "k2", "k3"], "t": {"k1": [1, 2, 3]}}, {"list": ["k3", "p1", "p2"], "t": {"k1": [3, 4, 5], "k2": ["web", "worker", "cron"]}}],
